@@ -92,6 +92,40 @@ Theorem C06_eps_covers : forall o, wf eps o ->
    forall g x, In g (gaps eps t (Some (SupSeg (extent_l o)))) -> In x o -> intersects eps g x = false).
 Proof. exact (covers_eps_spec eps Heps t). Qed.
 End C06_eps.
+(* extrude(removed, mode), every precision: crop on the regions [kept_regions] = gaps of `removed` within the extent
+   (described by the four theorems above), loose and strict swapped *)
+Section C06_eps_extrude.
+Variable eps : Z.
+Hypothesis Heps : 0 <= eps.
+Variable t : list seg.
+Hypothesis Ht : wf eps t.
+Hypothesis Hne : t <> [].
+Variable R : sup.
+Hypothesis HR : match R with SupSeg _ => True | SupTl l => wf eps l end.
+Theorem C06_eps_extrude_intersection : forall y,
+  In y (extrude eps t R Inter) <->
+  exists x g, In x t /\ In g (kept_regions eps t R) /\ y = sand x g /\ nonempty eps y = true.
+Proof. exact (extrude_inter_eps eps Heps t Ht Hne R HR). Qed.
+Theorem C06_eps_extrude_loose : forall x,
+  In x (extrude eps t R Loose) <-> In x t /\ exists g, In g (kept_regions eps t R) /\ sin g x = true.
+Proof. exact (extrude_loose_eps eps Heps t Ht Hne R HR). Qed.
+Theorem C06_eps_extrude_strict : forall x,
+  In x (extrude eps t R Strict) <-> In x t /\ exists g, In g (kept_regions eps t R) /\ intersects eps x g = true.
+Proof. exact (extrude_strict_eps eps Heps t Ht Hne R HR). Qed.
+Theorem C06_eps_kept_regions : forall g, In g (kept_regions eps t R) ->
+  en g - st g > eps /\ st (extent_l t) <= st g /\ en g <= en (extent_l t) /\
+  (forall s, In s (merged_crop eps (removed_of eps R) (extent_l t)) -> en g <= st s \/ en s <= st g).
+Proof. exact (kept_regions_sound eps Heps t R HR). Qed.
+End C06_eps_extrude.
+Example C06_eps_extrude_nonvacuous :
+  wf 4 [(0,20); (23,40); (50,60)] /\
+  kept_regions 4 [(0,20); (23,40); (50,60)] (SupSeg (18,52)) = [(0,18); (52,60)] /\
+  extrude 4 [(0,20); (23,40); (50,60)] (SupSeg (18,52)) Inter = [(0,18); (52,60)] /\
+  extrude 4 [(0,20); (23,40); (50,60)] (SupSeg (18,57)) Inter = [(0,18)] /\        (* (57,60) is not longer than eps *)
+  extrude 4 [(0,20); (23,40); (50,60)] (SupSeg (18,52)) Loose = [] /\
+  extrude 4 [(0,20); (23,40); (50,60)] (SupSeg (18,52)) Strict = [(0,20); (50,60)].
+Proof. split; [split; repeat constructor | vm_compute; repeat split]. Qed.
+
 (* at eps = 0 there is no sliver: the exact partition above *)
 Theorem C06_no_sliver_at_zero : forall e stop c k, ~ sliver 0 e stop c k.
 Proof. exact no_sliver_at_zero. Qed.
@@ -130,3 +164,7 @@ Print Assumptions C06_eps_gaps_timeline_sound.
 Print Assumptions C06_eps_gaps_timeline_complete.
 Print Assumptions C06_eps_covers.
 Print Assumptions C06_no_sliver_at_zero.
+Print Assumptions C06_eps_extrude_intersection.
+Print Assumptions C06_eps_extrude_loose.
+Print Assumptions C06_eps_extrude_strict.
+Print Assumptions C06_eps_kept_regions.
